@@ -1,7 +1,7 @@
 (** C11 — obligations over the facts regenerated from /repo (Gen/C11Facts.v). *)
 From Coq Require Import String List Bool.
 Import ListNotations.
-Require Import Nib.C11.Sites.
+Require Import Nib.C11.Model Nib.C11.Sites.
 Require Import Nib.Gen.C11Facts.
 
 (** Every write to Prevotes / Votes / FeederDelegations / oracle Params found in non-test code under
@@ -16,3 +16,29 @@ Print Assumptions C11_store_writers_are_the_modelled_ones.
 Theorem C11_handlers_reached_only_as_modelled : calls_ok handler_calls = true.
 Proof. vm_compute. reflexivity. Qed.
 Print Assumptions C11_handlers_reached_only_as_modelled.
+
+(** The reveal hash is taken over the exact bytes of the revealed salt and rate string: inside
+    types.GetAggregateVoteHash the preimage is <salt> ":" <rates> ":" <valoper> with no function
+    applied to salt or rates, and every caller in x/oracle/keeper passes msg.Salt and
+    msg.ExchangeRates untouched. *)
+Theorem C11_hash_preimage_exact : preimage_exact hash_preimage hash_sink vote_hash_calls = true.
+Proof. vm_compute. reflexivity. Qed.
+Print Assumptions C11_hash_preimage_exact.
+
+(** … no normalisation at all on the way from the message to the hash … *)
+Theorem C11_no_transform_before_hashing :
+  salt_transforms hash_preimage vote_hash_calls = [] /\ rates_transforms hash_preimage vote_hash_calls = [].
+Proof. split; vm_compute; reflexivity. Qed.
+Print Assumptions C11_no_transform_before_hashing.
+
+(** … hence the model instance for THIS tree is the one all theorems of Property.v are about,
+    whatever a variant tree would apply. *)
+Theorem C11_current_tree_model_is_exact :
+  forall variant H,
+  step_pi (pi_of_facts (preimage_exact hash_preimage hash_sink vote_hash_calls) variant) H = step H.
+Proof.
+  intros variant H.
+  assert (E : preimage_exact hash_preimage hash_sink vote_hash_calls = true) by (vm_compute; reflexivity).
+  rewrite E. reflexivity.
+Qed.
+Print Assumptions C11_current_tree_model_is_exact.
